@@ -191,7 +191,9 @@ Print Assumptions C16_block_cursor_sim_internal.
 (* tables (proofs: BlockCursorProofs / TableIndexProofs /              *)
 (* TableGetProofs / TableIterProofs).  Any block size, restart         *)
 (* interval, filter bits (0 = no filter) and checksum options; both    *)
-(* lcdb comparators; compression off; table files below 4 GiB.         *)
+(* lcdb comparators; any compression function that the Snappy decoder  *)
+(* inverts (and that only shrinks blocks below 4 GiB); table files     *)
+(* below 4 GiB.                                                        *)
 (* ================================================================== *)
 
 (* the crux: in the index block of a built table the key stored for data block i is
